@@ -128,6 +128,10 @@ func (s *scLife) Configure(w *World) {
 		c.W.Scrape, c.W.API, c.W.Close = 3, 1, 1
 		s.maxRest = 0
 		c.Faults = false
+		if t.Draw(3, nil) == 0 {
+			// events older than dcp.listener.skipUntil are dropped by the library: they must not be counted as accepted
+			c.CasMode, c.SkipUntilSec, c.SkipUntil = "boundary", 1_800_000_000, true
+		}
 	case "C14":
 		// closed loop: the checkpoint documents live in the streamed bucket, every checkpoint write comes back
 		// as a mutation; several groups may share the bucket; the workload is rich in reserved-prefix keys
